@@ -1,2 +1,684 @@
-(* C13 — lemmas and proofs. *)
-From Dastard Require Import Common.ZX C13.Model C13.ModelFloat C13.Spec.
+(* C13 — lemmas and proofs.
+   Part 1: the float accumulators of AnalyzeData are exact (sums_exact).
+   Part 2: the rounding structure of the five scalars (one_rounding lemmas).
+   Part 3: exact-arithmetic identities over Q (closed forms = textbook definitions). *)
+From Coq Require Import ZArith Reals Floats Lia Lra Uint63 List QArith Qabs Qreals Psatz.
+From Coq Require Import ZifyBool ZifyNat.
+From Flocq Require Import Core IEEE754.BinarySingleNaN IEEE754.PrimFloat.
+From Dastard Require Import Common.ZX C13.Model C13.ModelFloat C13.Spec C13.FloatKit.
+Import ListNotations.
+Open Scope Z_scope.
+
+(* ================================================================== Part 1: exact accumulators *)
+
+Definition IsInt (f : PrimFloat.float) (z : Z) : Prop := Ffin f /\ FR f = IZR z.
+Definition IsHalf (f : PrimFloat.float) (z : Z) : Prop := Ffin f /\ FR f = (IZR z / 2)%R.
+
+Lemma small_abs (z : Z) : Z.abs z < 2 ^ 53 -> (Rabs (IZR z) < BIG)%R.
+Proof.
+  intros H. apply Rle_lt_trans with (bpow radix2 53); [apply abs_lt_BIG; lia | apply BIG_ge].
+Qed.
+Lemma small_abs_half (z : Z) : Z.abs z < 2 ^ 53 -> (Rabs (IZR z / 2) < BIG)%R.
+Proof.
+  intros H. apply Rle_lt_trans with (Rabs (IZR z)); [| apply small_abs; auto].
+  unfold Rdiv. rewrite Rabs_mult. rewrite (Rabs_pos_eq (/ 2)) by lra.
+  pose proof (Rabs_pos (IZR z)). lra.
+Qed.
+
+Lemma f_of_Z_int z : Z.abs z < 2 ^ 53 -> IsInt (f_of_Z z) z.
+Proof.
+  intros H. unfold f_of_Z, IsInt. destruct (z <? 0) eqn:E.
+  - destruct (FR_of_uint63 (- z)) as [H1 H2]; [lia|].
+    split; [apply Ffin_opp; exact H2|]. rewrite FR_opp, H1, opp_IZR. ring.
+  - destruct (FR_of_uint63 z) as [H1 H2]; [lia|]. split; auto.
+Qed.
+
+Lemma int_half f z : IsInt f z -> IsHalf f (2 * z).
+Proof. intros [H1 H2]. split; auto. rewrite H2, mult_IZR. field. Qed.
+
+Lemma half_add a b x y : IsHalf a x -> IsHalf b y -> Z.abs (x + y) < 2 ^ 53 -> IsHalf (a + b)%float (x + y).
+Proof.
+  intros [Ha1 Ha2] [Hb1 Hb2] H.
+  assert (E : (FR a + FR b = IZR (x + y) / 2)%R) by (rewrite Ha2, Hb2, plus_IZR; field).
+  destruct (kit_add_exact a b Ha1 Hb1) as [H1 H2].
+  - rewrite E. apply Fmt_half; auto.
+  - rewrite E. apply small_abs_half; auto.
+  - split; auto. rewrite H1. exact E.
+Qed.
+
+Lemma half_sub a b x y : IsHalf a x -> IsHalf b y -> Z.abs (x - y) < 2 ^ 53 -> IsHalf (a - b)%float (x - y).
+Proof.
+  intros [Ha1 Ha2] [Hb1 Hb2] H.
+  assert (E : (FR a - FR b = IZR (x - y) / 2)%R) by (rewrite Ha2, Hb2, minus_IZR; field).
+  destruct (kit_sub_exact a b Ha1 Hb1) as [H1 H2].
+  - rewrite E. apply Fmt_half; auto.
+  - rewrite E. apply small_abs_half; auto.
+  - split; auto. rewrite H1. exact E.
+Qed.
+
+Lemma int_add a b x y : IsInt a x -> IsInt b y -> Z.abs (x + y) < 2 ^ 53 -> IsInt (a + b)%float (x + y).
+Proof.
+  intros [Ha1 Ha2] [Hb1 Hb2] H.
+  assert (E : (FR a + FR b = IZR (x + y))%R) by (rewrite Ha2, Hb2, plus_IZR; ring).
+  destruct (kit_add_exact a b Ha1 Hb1) as [H1 H2].
+  - rewrite E. apply Fmt_int; auto.
+  - rewrite E. apply small_abs; auto.
+  - split; auto. rewrite H1. exact E.
+Qed.
+
+Lemma int_sub a b x y : IsInt a x -> IsInt b y -> Z.abs (x - y) < 2 ^ 53 -> IsInt (a - b)%float (x - y).
+Proof.
+  intros [Ha1 Ha2] [Hb1 Hb2] H.
+  assert (E : (FR a - FR b = IZR (x - y))%R) by (rewrite Ha2, Hb2, minus_IZR; ring).
+  destruct (kit_sub_exact a b Ha1 Hb1) as [H1 H2].
+  - rewrite E. apply Fmt_int; auto.
+  - rewrite E. apply small_abs; auto.
+  - split; auto. rewrite H1. exact E.
+Qed.
+
+Lemma int_mul a b x y : IsInt a x -> IsInt b y -> Z.abs (x * y) < 2 ^ 53 -> IsInt (a * b)%float (x * y).
+Proof.
+  intros [Ha1 Ha2] [Hb1 Hb2] H.
+  assert (E : (FR a * FR b = IZR (x * y))%R) by (rewrite Ha2, Hb2, mult_IZR; ring).
+  destruct (kit_mul_exact a b Ha1 Hb1) as [H1 H2].
+  - rewrite E. apply Fmt_int; auto.
+  - rewrite E. apply small_abs; auto.
+  - split; auto. rewrite H1. exact E.
+Qed.
+
+Lemma int_mul_half a b x y : IsInt a x -> IsHalf b y -> Z.abs (x * y) < 2 ^ 53 -> IsHalf (a * b)%float (x * y).
+Proof.
+  intros [Ha1 Ha2] [Hb1 Hb2] H.
+  assert (E : (FR a * FR b = IZR (x * y) / 2)%R) by (rewrite Ha2, Hb2, mult_IZR; field).
+  destruct (kit_mul_exact a b Ha1 Hb1) as [H1 H2].
+  - rewrite E. apply Fmt_half; auto.
+  - rewrite E. apply small_abs_half; auto.
+  - split; auto. rewrite H1. exact E.
+Qed.
+
+Lemma FR_half : FR 0.5%float = (/ 2)%R /\ Ffin 0.5%float.
+Proof.
+  split.
+  - rewrite FR_SF. vm_compute Prim2SF. unfold SF2R, F2R. cbn [Fnum Fexp cond_Zopp].
+    change (bpow radix2 (-53)) with (/ IZR (2 ^ 53))%R.
+    change (2 ^ 53) with 9007199254740992. lra.
+  - apply Ffin_SF. vm_compute. reflexivity.
+Qed.
+
+Lemma half_of_int a x : IsInt a x -> Z.abs x < 2 ^ 53 -> IsHalf (a * 0.5)%float x.
+Proof.
+  intros [Ha1 Ha2] H. destruct FR_half as [Hh1 Hh2].
+  assert (E : (FR a * FR 0.5%float = IZR x / 2)%R) by (rewrite Ha2, Hh1; field).
+  destruct (kit_mul_exact a 0.5%float Ha1 Hh2) as [H1 H2].
+  - rewrite E. apply Fmt_half; auto.
+  - rewrite E. apply small_abs_half; auto.
+  - split; auto. rewrite H1. exact E.
+Qed.
+
+(* ---- the two loops ---- *)
+Definition srange (d : Z) : Prop := -32768 <= d <= 65535.
+
+Lemma interp_range signed v : 0 <= v < 65536 -> srange (interp signed v).
+Proof. unfold interp, srange. intros H. destruct signed; [destruct (v <? 32768) eqn:E|]; lia. Qed.
+
+(* the slope accumulator, doubled, from index i on *)
+Fixpoint wsum (d0 p i : Z) (ds : list Z) : Z :=
+  match ds with
+  | [] => 0
+  | d :: r => (d - d0) * (2 * i - (p - 1)) + wsum d0 p (i + 1) r
+  end.
+
+Lemma pre_loop_exact (d0 xm : PrimFloat.float) (d0z p : Z) :
+  IsInt d0 d0z -> srange d0z -> IsHalf xm (p - 1) -> p * p * 2 ^ 17 < 2 ^ 53 ->
+  forall ds i val vd sv sd,
+    0 <= i -> i + zlen ds <= p ->
+    Forall srange ds ->
+    IsInt val sv -> Z.abs sv <= i * 2 ^ 16 ->
+    IsHalf vd sd -> Z.abs sd <= i * (2 ^ 17 * p) ->
+    IsInt (fst (pre_loop d0 xm i (map f_of_Z ds) val vd)) (sv + Zsum ds) /\
+    IsHalf (snd (pre_loop d0 xm i (map f_of_Z ds) val vd)) (sd + wsum d0z p i ds) /\
+    Z.abs (sd + wsum d0z p i ds) <= (i + zlen ds) * (2 ^ 17 * p).
+Proof.
+  intros Hd0 Hr0 Hxm Hp.
+  induction ds as [|d r IH]; intros i val vd sv sd Hi Hlen Hall Hval Hsv Hvd Hsd.
+  - cbn [map pre_loop fst snd Zsum fold_right wsum]. rewrite !Z.add_0_r. split; [exact Hval|]. split; [exact Hvd|].
+    unfold zlen; cbn [length]. lia.
+  - cbn [map pre_loop Zsum fold_right wsum].
+    inversion Hall as [|? ? Hd Hall']; subst.
+    unfold zlen in Hlen. cbn [length] in Hlen. rewrite Nat2Z.inj_succ in Hlen.
+    fold (zlen r) in Hlen. pose proof (zlen_nonneg r) as Hr.
+    assert (Hp1 : 1 <= p) by lia.
+    assert (Hip : i < p) by lia.
+    unfold srange in Hd, Hr0.
+    assert (Hfd : IsInt (f_of_Z d) d) by (apply f_of_Z_int; lia).
+    assert (Hfi : IsInt (f_of_Z i) i) by (apply f_of_Z_int; nia).
+    (* val + x *)
+    assert (Hval' : IsInt (val + f_of_Z d)%float (sv + d)).
+    { apply int_add; auto. nia. }
+    (* (x - d0) *)
+    assert (Hxd : IsInt (f_of_Z d - d0)%float (d - d0z)) by (apply int_sub; auto; lia).
+    (* float64(i) - xmean *)
+    assert (Hix : IsHalf (f_of_Z i - xm)%float (2 * i - (p - 1))).
+    { apply half_sub; auto. apply int_half; auto. nia. }
+    assert (Hb1 : Z.abs (d - d0z) < 2 ^ 17) by lia.
+    assert (Hb2 : Z.abs (2 * i - (p - 1)) < p) by lia.
+    assert (Hb3 : Z.abs ((d - d0z) * (2 * i - (p - 1))) <= 2 ^ 17 * p).
+    { rewrite Z.abs_mul. nia. }
+    assert (Hprod : IsHalf ((f_of_Z d - d0) * (f_of_Z i - xm))%float ((d - d0z) * (2 * i - (p - 1)))).
+    { apply int_mul_half; auto. nia. }
+    assert (Hvd' : IsHalf (vd + (f_of_Z d - d0) * (f_of_Z i - xm))%float (sd + (d - d0z) * (2 * i - (p - 1)))).
+    { apply half_add; auto. nia. }
+    specialize (IH (i + 1) _ _ _ _ ltac:(lia) ltac:(lia) Hall' Hval' ltac:(lia) Hvd' ltac:(nia)).
+    destruct IH as (IH1 & IH2 & IH3).
+    replace (sd + ((d - d0z) * (2 * i - (p - 1)) + wsum d0z p (i + 1) r))
+        with (sd + (d - d0z) * (2 * i - (p - 1)) + wsum d0z p (i + 1) r) by ring.
+    repeat split.
+    + apply (proj1 IH1).
+    + replace (sv + (d + fold_right Z.add 0 r)) with (sv + d + Zsum r) by (unfold Zsum; ring). apply (proj2 IH1).
+    + apply (proj1 IH2).
+    + apply (proj2 IH2).
+    + replace (i + zlen (d :: r)) with (i + 1 + zlen r) by (unfold zlen; cbn [length]; lia). exact IH3.
+Qed.
+
+Definition Rmaxl (m0 : R) (ds : list Z) : R := fold_left (fun a d => Rmax a (IZR d)) ds m0.
+
+Lemma post_loop_exact :
+  forall ds j sum sum2 mx s1 s2,
+    0 <= j -> (j + zlen ds) * 2 ^ 32 < 2 ^ 53 ->
+    Forall srange ds ->
+    IsInt sum s1 -> Z.abs s1 <= j * 2 ^ 16 ->
+    IsInt sum2 s2 -> Z.abs s2 <= j * 2 ^ 32 ->
+    Ffin mx ->
+    let r := post_loop (map f_of_Z ds) sum sum2 mx in
+    IsInt (fst (fst r)) (s1 + Zsum ds) /\
+    IsInt (snd (fst r)) (s2 + Zsum (map (fun d => d * d) ds)) /\
+    Ffin (snd r) /\ FR (snd r) = Rmaxl (FR mx) ds.
+Proof.
+  induction ds as [|d r IH]; intros j sum sum2 mx s1 s2 Hj Hlen Hall Hs1 Hb1 Hs2 Hb2 Hmx.
+  - cbn. rewrite !Z.add_0_r. auto.
+  - cbn [map post_loop].
+    inversion Hall as [|? ? Hd Hall']; subst.
+    unfold zlen in Hlen. cbn [length] in Hlen. rewrite Nat2Z.inj_succ in Hlen.
+    fold (zlen r) in Hlen. pose proof (zlen_nonneg r) as Hr.
+    unfold srange in Hd.
+    assert (Hfd : IsInt (f_of_Z d) d) by (apply f_of_Z_int; lia).
+    assert (Hsq : IsInt (f_of_Z d * f_of_Z d)%float (d * d)) by (apply int_mul; auto; nia).
+    assert (Hdd : 0 <= d * d <= 2 ^ 32) by nia.
+    assert (Hs1' : IsInt (sum + f_of_Z d)%float (s1 + d)) by (apply int_add; auto; nia).
+    assert (Hs2' : IsInt (sum2 + f_of_Z d * f_of_Z d)%float (s2 + d * d)) by (apply int_add; auto; nia).
+    assert (Hmx' : Ffin (if PrimFloat.ltb mx (f_of_Z d) then f_of_Z d else mx) /\
+                   FR (if PrimFloat.ltb mx (f_of_Z d) then f_of_Z d else mx) = Rmax (FR mx) (IZR d)).
+    { destruct Hfd as [Hf1 Hf2]. rewrite (kit_ltb mx (f_of_Z d) Hmx Hf1). rewrite Hf2.
+      destruct (Rlt_bool_spec (FR mx) (IZR d)) as [Hlt|Hge].
+      - split; auto. rewrite Rmax_right by lra. exact Hf2.
+      - split; auto. rewrite Rmax_left by lra. reflexivity. }
+    destruct Hmx' as [Hm1 Hm2].
+    specialize (IH (j + 1) _ _ _ _ _ ltac:(lia) ltac:(lia) Hall' Hs1' ltac:(lia) Hs2' ltac:(lia) Hm1).
+    cbv zeta in IH. destruct IH as (I1 & I2 & I3 & I4).
+    cbv zeta. repeat split.
+    + apply (proj1 I1).
+    + rewrite (proj2 I1). f_equal. cbn [Zsum fold_right]. unfold Zsum. ring.
+    + apply (proj1 I2).
+    + rewrite (proj2 I2). f_equal. cbn [Zsum fold_right map]. unfold Zsum. ring.
+    + exact I3.
+    + rewrite I4. unfold Rmaxl. cbn [fold_left]. rewrite Hm2. reflexivity.
+Qed.
+
+(* ---- assembling: the accumulators of the model ---- *)
+Lemma words_srange signed raw : words_ok raw = true -> Forall srange (map (interp signed) raw).
+Proof.
+  unfold words_ok. rewrite forallb_forall. intros H. apply Forall_forall. intros x Hx.
+  apply in_map_iff in Hx. destruct Hx as (v & <- & Hv). apply interp_range.
+  specialize (H v Hv). lia.
+Qed.
+
+Lemma Forall_firstn {A} (P : A -> Prop) n (l : list A) : Forall P l -> Forall P (firstn n l).
+Proof. revert l. induction n; intros l H; cbn; [constructor|]. destruct H; constructor; auto. Qed.
+Lemma Forall_skipn {A} (P : A -> Prop) n (l : list A) : Forall P l -> Forall P (skipn n l).
+Proof. revert l. induction n; intros l H; cbn; auto. destruct H; auto. Qed.
+
+Lemma wsum_combine d0 p : forall l i,
+  Zsum (map (fun id : Z * Z => (snd id - d0) * (2 * fst id - (p - 1))) (combine (zrange_nat i (length l)) l))
+  = wsum d0 p i l.
+Proof.
+  induction l as [|d r IH]; intros i; cbn [length zrange_nat combine map Zsum fold_right wsum fst snd]; auto.
+  fold (Zsum (map (fun id : Z * Z => (snd id - d0) * (2 * fst id - (p - 1))) (combine (zrange_nat (i + 1) (length r)) r))).
+  rewrite IH. reflexivity.
+Qed.
+
+Lemma pre_length (ds : list Z) p : 0 <= p <= zlen ds -> length (pre ds p) = Z.to_nat p.
+Proof. intros H. unfold pre, zfirstn. rewrite firstn_length. unfold zlen in H. lia. Qed.
+
+Lemma V2_wsum ds p : 0 <= p <= zlen ds -> V2 ds p = wsum (hd 0 ds) p 0 (pre ds p).
+Proof.
+  intros H. unfold V2, zrange. rewrite <- (pre_length ds p H). apply wsum_combine.
+Qed.
+
+Lemma samples_map signed raw : samples signed raw = map f_of_Z (map (interp signed) raw).
+Proof. unfold samples. rewrite map_map. reflexivity. Qed.
+
+Lemma IsInt_zero : IsInt 0%float 0.
+Proof.
+  split.
+  - apply Ffin_SF. vm_compute. reflexivity.
+  - rewrite FR_SF. vm_compute Prim2SF. reflexivity.
+Qed.
+Lemma IsHalf_zero : IsHalf 0%float 0.
+Proof. destruct IsInt_zero as [H1 H2]. split; auto. rewrite H2. lra. Qed.
+
+Lemma acc_pre_exact signed p raw :
+  words_ok raw = true -> 1 <= p <= zlen raw -> p * p * 2 ^ 17 < 2 ^ 53 ->
+  let ds := map (interp signed) raw in
+  IsInt (fst (acc_pre signed p raw)) (S0 ds p) /\ IsHalf (snd (acc_pre signed p raw)) (V2 ds p) /\
+  Z.abs (V2 ds p) <= p * (2 ^ 17 * p).
+Proof.
+  intros Hw Hp Hpp. cbv zeta.
+  unfold acc_pre. rewrite samples_map.
+  set (ds := map (interp signed) raw).
+  assert (Hall : Forall srange ds) by (apply words_srange; auto).
+  assert (Hlen : zlen ds = zlen raw) by (unfold ds, zlen; rewrite map_length; reflexivity).
+  clearbody ds.
+  unfold zfirstn. rewrite firstn_map. fold (zfirstn p ds). fold (pre ds p).
+  assert (Hne : ds <> []).
+  { intros E. rewrite E in Hlen. unfold zlen in *. cbn in Hlen. lia. }
+  assert (Hhd : hd 0%float (map f_of_Z ds) = f_of_Z (hd 0 ds)) by (destruct ds; [congruence|reflexivity]).
+  rewrite Hhd. set (dfirst := hd 0 ds).
+  assert (Hd0r : srange dfirst).
+  { unfold dfirst. destruct ds; [congruence|]. inversion Hall; auto. }
+  assert (Hd0 : IsInt (f_of_Z dfirst) dfirst) by (apply f_of_Z_int; unfold srange in Hd0r; lia).
+  assert (Hxm : IsHalf (f_of_Z (p - 1) * 0.5)%float (p - 1)).
+  { apply half_of_int; [apply f_of_Z_int|]; nia. }
+  pose proof (pre_loop_exact (f_of_Z dfirst) (f_of_Z (p - 1) * 0.5)%float dfirst p Hd0 Hd0r Hxm Hpp
+                (pre ds p) 0 0%float 0%float 0 0 ltac:(lia)) as H.
+  assert (Hpl : zlen (pre ds p) = p).
+  { unfold zlen. rewrite pre_length by lia. lia. }
+  specialize (H ltac:(lia) (Forall_firstn _ _ _ Hall) IsInt_zero ltac:(lia) IsHalf_zero ltac:(lia)).
+  destruct H as (H1 & H2 & H3). rewrite !Z.add_0_l in *. rewrite Hpl in H3.
+  rewrite V2_wsum by lia. auto.
+Qed.
+
+(* ================================================================== Part 2: rounding structure *)
+Open Scope R_scope.
+
+Lemma pow_lt_BIG k : (k < 1024)%Z -> bpow radix2 k < BIG.
+Proof. intros H. apply bpow_lt. exact H. Qed.
+
+Lemma RN_pow_le k r : (-1074 <= k)%Z -> Rabs r <= bpow radix2 k -> Rabs (RN r) <= bpow radix2 k.
+Proof. intros Hk H. apply RN_abs_le; auto. apply Fmt_pow2; auto. Qed.
+
+Lemma kit_add_b x y k : Ffin x -> Ffin y -> (-1074 <= k < 1024)%Z -> Rabs (FR x + FR y) <= bpow radix2 k ->
+  FR (x + y)%float = RN (FR x + FR y) /\ Ffin (x + y)%float /\ Rabs (FR (x + y)%float) <= bpow radix2 k.
+Proof.
+  intros Hx Hy Hk Hb. pose proof (RN_pow_le k _ (proj1 Hk) Hb) as Hr.
+  destruct (kit_add x y Hx Hy) as [H1 H2].
+  - eapply Rle_lt_trans; [exact Hr | apply pow_lt_BIG; lia].
+  - rewrite H1. auto.
+Qed.
+Lemma kit_sub_b x y k : Ffin x -> Ffin y -> (-1074 <= k < 1024)%Z -> Rabs (FR x - FR y) <= bpow radix2 k ->
+  FR (x - y)%float = RN (FR x - FR y) /\ Ffin (x - y)%float /\ Rabs (FR (x - y)%float) <= bpow radix2 k.
+Proof.
+  intros Hx Hy Hk Hb. pose proof (RN_pow_le k _ (proj1 Hk) Hb) as Hr.
+  destruct (kit_sub x y Hx Hy) as [H1 H2].
+  - eapply Rle_lt_trans; [exact Hr | apply pow_lt_BIG; lia].
+  - rewrite H1. auto.
+Qed.
+Lemma kit_mul_b x y k : Ffin x -> Ffin y -> (-1074 <= k < 1024)%Z -> Rabs (FR x * FR y) <= bpow radix2 k ->
+  FR (x * y)%float = RN (FR x * FR y) /\ Ffin (x * y)%float /\ Rabs (FR (x * y)%float) <= bpow radix2 k.
+Proof.
+  intros Hx Hy Hk Hb. pose proof (RN_pow_le k _ (proj1 Hk) Hb) as Hr.
+  destruct (kit_mul x y Hx Hy) as [H1 H2].
+  - eapply Rle_lt_trans; [exact Hr | apply pow_lt_BIG; lia].
+  - rewrite H1. auto.
+Qed.
+Lemma kit_div_b x y k : Ffin x -> FR y <> 0 -> (-1074 <= k < 1024)%Z -> Rabs (FR x / FR y) <= bpow radix2 k ->
+  FR (x / y)%float = RN (FR x / FR y) /\ Ffin (x / y)%float /\ Rabs (FR (x / y)%float) <= bpow radix2 k.
+Proof.
+  intros Hx Hy Hk Hb. pose proof (RN_pow_le k _ (proj1 Hk) Hb) as Hr.
+  destruct (kit_div x y Hx Hy) as [H1 H2].
+  - eapply Rle_lt_trans; [exact Hr | apply pow_lt_BIG; lia].
+  - rewrite H1. auto.
+Qed.
+
+Lemma bpow_IZR k : (0 <= k)%Z -> bpow radix2 k = IZR (2 ^ k).
+Proof. intros H. symmetry. apply (IZR_Zpower radix2). exact H. Qed.
+
+(* |z / n| <= B when |z| <= n B *)
+Lemma div_bound z n B : (0 < n)%Z -> (Z.abs z <= n * B)%Z -> Rabs (IZR z / IZR n) <= IZR B.
+Proof.
+  intros Hn Hz.
+  assert (Hn' : 0 < IZR n) by (apply IZR_lt; exact Hn).
+  unfold Rdiv. rewrite Rabs_mult. rewrite (Rabs_pos_eq (/ IZR n)) by (left; apply Rinv_0_lt_compat; auto).
+  apply Rmult_le_reg_r with (IZR n); auto.
+  rewrite Rmult_assoc, Rinv_l by lra. rewrite Rmult_1_r.
+  rewrite <- abs_IZR, <- mult_IZR. apply IZR_le. lia.
+Qed.
+
+Lemma Zsum_abs_bound (l : list Z) B : Forall (fun d => (Z.abs d <= B)%Z) l -> (Z.abs (Zsum l) <= zlen l * B)%Z.
+Proof.
+  induction 1 as [|d r Hd Hr IH]; cbn [Zsum fold_right].
+  - unfold zlen; cbn; lia.
+  - fold (Zsum r). unfold zlen in *. cbn [length]. lia.
+Qed.
+
+Lemma srange_abs l : Forall srange l -> Forall (fun d => (Z.abs d <= 2 ^ 16)%Z) l.
+Proof. apply Forall_impl. unfold srange. intros; lia. Qed.
+Lemma srange_sq l : Forall srange l -> Forall (fun d => (Z.abs d <= 2 ^ 32)%Z) (map (fun d => (d * d)%Z) l).
+Proof. intros H. apply Forall_map. revert H. apply Forall_impl. unfold srange. intros; nia. Qed.
+
+Section Scalars.
+  Variable signed : bool.
+  Variable p : Z.
+  Variable raw : list Z.
+  Hypothesis Hw : words_ok raw = true.
+  Hypothesis Hp : (1 <= p)%Z.
+  Hypothesis Hn : (p + 1 <= zlen raw)%Z.
+  Hypothesis Hpp : (p * p * 2 ^ 17 < 2 ^ 53)%Z.
+  Hypothesis HN : ((zlen raw - p) * 2 ^ 32 < 2 ^ 53)%Z.
+
+  Let ds := map (interp signed) raw.
+  Let N := (zlen raw - p)%Z.
+
+  Lemma ds_len : zlen ds = zlen raw.
+  Proof. unfold ds, zlen. rewrite map_length. reflexivity. Qed.
+  Lemma ds_range : Forall srange ds.
+  Proof. apply words_srange. exact Hw. Qed.
+  Lemma pre_len : zlen (pre ds p) = p.
+  Proof. unfold zlen. rewrite pre_length; [lia | rewrite ds_len; lia]. Qed.
+  Lemma post_len : zlen (post ds p) = N.
+  Proof.
+    unfold post, zskipn, zlen. rewrite skipn_length. pose proof ds_len as H. pose proof Hn as Hn'. unfold N. unfold zlen in *. lia.
+  Qed.
+
+  Lemma S0_bound : (Z.abs (S0 ds p) <= p * 2 ^ 16)%Z.
+  Proof.
+    unfold S0. rewrite <- pre_len at 2. apply Zsum_abs_bound. apply srange_abs.
+    apply Forall_firstn. apply ds_range.
+  Qed.
+  Lemma S1_bound : (Z.abs (S1 ds p) <= N * 2 ^ 16)%Z.
+  Proof.
+    unfold S1. rewrite <- post_len. apply Zsum_abs_bound. apply srange_abs.
+    apply Forall_skipn. apply ds_range.
+  Qed.
+  Lemma S2_bound : (Z.abs (S2 ds p) <= N * 2 ^ 32)%Z.
+  Proof.
+    unfold S2. rewrite <- post_len.
+    replace (zlen (post ds p)) with (zlen (map (fun d => (d * d)%Z) (post ds p))) by (unfold zlen; rewrite map_length; reflexivity).
+    apply Zsum_abs_bound. apply srange_sq. apply Forall_skipn. apply ds_range.
+  Qed.
+
+  Lemma fp_int : IsInt (f_of_Z p) p.
+  Proof. apply f_of_Z_int. nia. Qed.
+  Lemma fN_int : IsInt (f_of_Z N) N.
+  Proof. apply f_of_Z_int. unfold N in *. lia. Qed.
+
+  Let ptm := ptm_of signed p raw.
+
+  Lemma ptm_rounding :
+    FR ptm = RN (IZR (S0 ds p) / IZR p) /\ Ffin ptm /\ Rabs (FR ptm) <= bpow radix2 16.
+  Proof.
+    destruct (acc_pre_exact signed p raw Hw ltac:(lia) Hpp) as ([Hv1 Hv2] & _ & _). fold ds in Hv2.
+    destruct fp_int as [Hf1 Hf2].
+    unfold ptm, ptm_of.
+    destruct (kit_div_b (fst (acc_pre signed p raw)) (f_of_Z p) 16 Hv1) as (H1 & H2 & H3).
+    - rewrite Hf2. apply not_0_IZR. lia.
+    - lia.
+    - rewrite Hv2, Hf2. rewrite bpow_IZR by lia. apply div_bound; [lia | apply S0_bound].
+    - rewrite H1, Hv2, Hf2 in *. auto.
+  Qed.
+
+  Lemma acc_post_exact :
+    let r := acc_post signed p raw in
+    IsInt (fst (fst r)) (S1 ds p) /\ IsInt (snd (fst r)) (S2 ds p) /\
+    Ffin (snd r) /\ FR (snd r) = Rmaxl (FR ptm) (post ds p).
+  Proof.
+    cbv zeta. unfold acc_post. rewrite samples_map. fold ds.
+    unfold zskipn. rewrite skipn_map. fold (zskipn p ds). fold (post ds p).
+    destruct ptm_rounding as (_ & Hfin & _).
+    pose proof (post_loop_exact (post ds p) 0 0%float 0%float ptm 0 0 ltac:(lia)) as H.
+    rewrite post_len in H.
+    specialize (H ltac:(unfold N; lia) (Forall_skipn _ _ _ ds_range) IsInt_zero ltac:(lia) IsInt_zero ltac:(lia) Hfin).
+    cbv zeta in H. rewrite !Z.add_0_l in H. exact H.
+  Qed.
+End Scalars.
+
+(* ---- more kit: constants, sqrt, clamp, max ---- *)
+Lemma FR_const_12 : FR 12%float = 12 /\ Ffin 12%float.
+Proof.
+  split.
+  - rewrite FR_SF. vm_compute Prim2SF. unfold SF2R, F2R. cbn [Fnum Fexp cond_Zopp].
+    change (bpow radix2 (-49)) with (/ IZR (2 ^ 49))%R.
+    change (2 ^ 49)%Z with 562949953421312%Z. lra.
+  - apply Ffin_SF. vm_compute. reflexivity.
+Qed.
+Lemma FR_const_2 : FR 2%float = 2 /\ Ffin 2%float.
+Proof.
+  split.
+  - rewrite FR_SF. vm_compute Prim2SF. unfold SF2R, F2R. cbn [Fnum Fexp cond_Zopp].
+    change (bpow radix2 (-51)) with (/ IZR (2 ^ 51))%R.
+    change (2 ^ 51)%Z with 2251799813685248%Z. lra.
+  - apply Ffin_SF. vm_compute. reflexivity.
+Qed.
+Lemma FR_const_0 : FR 0%float = 0 /\ Ffin 0%float.
+Proof. destruct IsInt_zero as [H1 H2]. split; auto. Qed.
+
+Lemma kit_sqrt x : Ffin x -> 0 <= FR x -> FR (PrimFloat.sqrt x) = RN (R_sqrt.sqrt (FR x)) /\ Ffin (PrimFloat.sqrt x).
+Proof.
+  unfold FR, Ffin. intros Hf Hpos. rewrite sqrt_equiv.
+  destruct (Bsqrt_correct prec emax Hprec Hmax mode_NE (Prim2B x)) as (H1 & H2 & _).
+  split; [exact H1|]. rewrite H2.
+  destruct (Prim2B x) as [s|s| |s m e Hb]; try reflexivity; try discriminate.
+  destruct s; [|reflexivity]. exfalso.
+  cbn [B2R cond_Zopp] in Hpos.
+  assert (F2R (Float radix2 (Z.neg m) e) < 0) by (apply F2R_lt_0; cbn; lia).
+  cbn [Z.opp] in Hpos. lra.
+Qed.
+
+Lemma kit_clamp0 x : Ffin x -> FR (clamp0 x) = Rmax 0 (FR x) /\ Ffin (clamp0 x).
+Proof.
+  intros Hx. destruct FR_const_0 as [Hz1 Hz2]. unfold clamp0.
+  rewrite (kit_ltb x 0%float Hx Hz2). rewrite Hz1.
+  destruct (Rlt_bool_spec (FR x) 0) as [Hlt|Hge].
+  - split; auto. rewrite Rmax_left by lra. exact Hz1.
+  - split; auto. rewrite Rmax_right by lra. reflexivity.
+Qed.
+
+Lemma IZR_Zmax a b : IZR (Z.max a b) = Rmax (IZR a) (IZR b).
+Proof.
+  destruct (Z.max_spec a b) as [[H1 H2]|[H1 H2]]; rewrite H2.
+  - rewrite Rmax_right; auto. apply IZR_le. lia.
+  - rewrite Rmax_left; auto. apply IZR_le. lia.
+Qed.
+
+Lemma Rmaxl_fold : forall r a x, IZR x <= a ->
+  fold_left (fun a d => Rmax a (IZR d)) r a = Rmax a (IZR (fold_right Z.max x r)).
+Proof.
+  induction r as [|y r IH]; intros a x Hx; cbn [fold_left fold_right].
+  - rewrite Rmax_left; auto.
+  - rewrite (IH (Rmax a (IZR y)) x).
+    + rewrite IZR_Zmax. rewrite <- Rmax_assoc. reflexivity.
+    + eapply Rle_trans; [exact Hx | apply Rmax_l].
+Qed.
+
+Lemma Rmaxl_max l m0 : l <> [] -> Rmaxl m0 l = Rmax m0 (IZR (Zmaxl l)).
+Proof.
+  destruct l as [|x r]; [congruence|]. intros _. unfold Rmaxl, Zmaxl. cbn [fold_left].
+  rewrite (Rmaxl_fold r (Rmax m0 (IZR x)) x) by apply Rmax_r.
+  destruct r as [|y r']; cbn [fold_right].
+  - rewrite Rmax_left; [reflexivity | apply Rmax_r].
+  - rewrite <- Rmax_assoc. f_equal.
+    rewrite <- IZR_Zmax. f_equal.
+    (* Z.max x (Z.max y (fold_right Z.max x r')) = Z.max y (fold_right Z.max x r') *)
+    assert (H : forall l, (x <= fold_right Z.max x l)%Z).
+    { induction l; cbn [fold_right]; lia. }
+    specialize (H r'). lia.
+Qed.
+
+(* ---- bounds on reals ---- *)
+Lemma mul_bound j k a b : Rabs a <= bpow radix2 j -> Rabs b <= bpow radix2 k -> Rabs (a * b) <= bpow radix2 (j + k).
+Proof.
+  intros Ha Hb. rewrite Rabs_mult, bpow_plus.
+  apply Rmult_le_compat; auto using Rabs_pos.
+Qed.
+Lemma add_bound j k a b : (j <= k)%Z -> Rabs a <= bpow radix2 j -> Rabs b <= bpow radix2 k -> Rabs (a + b) <= bpow radix2 (k + 1).
+Proof.
+  intros Hjk Ha Hb. eapply Rle_trans; [apply Rabs_triang|].
+  assert (bpow radix2 j <= bpow radix2 k) by (apply bpow_le; auto).
+  rewrite bpow_plus. change (bpow radix2 1) with 2. lra.
+Qed.
+Lemma sub_bound j k a b : (j <= k)%Z -> Rabs a <= bpow radix2 j -> Rabs b <= bpow radix2 k -> Rabs (a - b) <= bpow radix2 (k + 1).
+Proof.
+  intros Hjk Ha Hb. unfold Rminus.
+  apply (add_bound j k); auto. rewrite Rabs_Ropp. exact Hb.
+Qed.
+Lemma sub_bound' j k a b : (j <= k)%Z -> Rabs a <= bpow radix2 k -> Rabs b <= bpow radix2 j -> Rabs (a - b) <= bpow radix2 (k + 1).
+Proof.
+  intros Hjk Ha Hb. replace (a - b) with (- b + a) by ring.
+  apply (add_bound j k); auto. rewrite Rabs_Ropp. exact Hb.
+Qed.
+Lemma div_ge1_bound a b k : 1 <= b -> Rabs a <= bpow radix2 k -> Rabs (a / b) <= bpow radix2 k.
+Proof.
+  intros Hb Ha. unfold Rdiv. rewrite Rabs_mult. rewrite (Rabs_pos_eq (/ b)).
+  - assert (/ b <= 1) by (rewrite <- Rinv_1; apply Rinv_le_contravar; lra).
+    pose proof (Rabs_pos a). nra.
+  - left. apply Rinv_0_lt_compat. lra.
+Qed.
+
+Section Structure.
+  Variable signed : bool.
+  Variable p : Z.
+  Variable raw : list Z.
+  Hypothesis Hw : words_ok raw = true.
+  Hypothesis Hp : (2 <= p)%Z.
+  Hypothesis Hn : (p + 1 <= zlen raw)%Z.
+  Hypothesis Hpp : (p * p * 2 ^ 17 < 2 ^ 53)%Z.
+  Hypothesis HN : ((zlen raw - p) * 2 ^ 32 < 2 ^ 53)%Z.
+
+  Let ds := map (interp signed) raw.
+  Let N := (zlen raw - p)%Z.
+  (* the real numbers computed by the float code *)
+  Definition mu_r : R := RN (IZR (S0 ds p) / IZR p).
+  Definition m1_r : R := RN (IZR (S1 ds p) / IZR N).
+  Definition m2_r : R := RN (IZR (S2 ds p) / IZR N).
+  Definition ms_r : R := RN (RN (m2_r - RN (RN (2 * mu_r) * m1_r)) + RN (mu_r * mu_r)).
+
+  Lemma analyze_structure :
+    exists s, analyze signed p raw = Ok s /\
+      (Ffin (s_ptm s) /\ FR (s_ptm s) = mu_r) /\
+      (Ffin (s_delta s) /\ FR (s_delta s) = RN (RN (IZR (V2 ds p) / 2 * 12) / IZR (p * (p + 1)))) /\
+      (Ffin (s_avg s) /\ FR (s_avg s) = RN (m1_r - mu_r)) /\
+      (Ffin (s_rms s) /\ FR (s_rms s) = RN (R_sqrt.sqrt (Rmax 0 ms_r))) /\
+      (Ffin (s_peak s) /\ FR (s_peak s) = RN (Rmax mu_r (IZR (MX ds p)) - mu_r)).
+  Proof.
+    assert (Hp1 : (1 <= p)%Z) by lia.
+    destruct (ptm_rounding signed p raw Hw Hp1 Hn Hpp) as (Hm1 & Hm2 & Hm3).
+    fold ds in Hm1. fold mu_r in Hm1.
+    destruct (acc_pre_exact signed p raw Hw ltac:(lia) Hpp) as (_ & [Hvd1 Hvd2] & Hvb). fold ds in Hvd2, Hvb.
+    destruct (acc_post_exact signed p raw Hw Hp1 Hn Hpp HN) as ([Hs1a Hs1b] & [Hs2a Hs2b] & Hmxa & Hmxb).
+    fold ds in Hs1b, Hs2b, Hmxb.
+    assert (HNpos : (1 <= N)%Z) by (unfold N; lia).
+    destruct (fN_int p raw Hw Hn HN) as [HfN1 HfN2]. fold N in HfN1, HfN2.
+    assert (HfNnz : FR (f_of_Z N) <> 0) by (rewrite HfN2; apply not_0_IZR; lia).
+    unfold analyze, analyze_gen.
+    assert (Hguard : ((zlen raw =? 0)%Z || (p <? 0)%Z || (p >? zlen raw)%Z)%bool = false) by lia.
+    rewrite Hguard. clear Hguard.
+    destruct (acc_post signed p raw) as [[sum sum2] mx] eqn:Epost.
+    cbn [fst snd] in Hs1a, Hs1b, Hs2a, Hs2b, Hmxa, Hmxb.
+    fold N. set (ptm := ptm_of signed p raw) in *.
+    eexists. split; [reflexivity|]. cbn [s_ptm s_delta s_avg s_rms s_peak].
+    (* sum / N *)
+    destruct (kit_div_b sum (f_of_Z N) 16 Hs1a HfNnz ltac:(lia)) as (Hq1 & Hq2 & Hq3).
+    { rewrite Hs1b, HfN2. rewrite bpow_IZR by lia. apply div_bound; [lia|].
+      apply (S1_bound signed p raw Hw Hp1 Hn). }
+    rewrite Hs1b, HfN2 in Hq1. fold m1_r in Hq1.
+    (* sum2 / N *)
+    destruct (kit_div_b sum2 (f_of_Z N) 32 Hs2a HfNnz ltac:(lia)) as (Hr1 & Hr2 & Hr3).
+    { rewrite Hs2b, HfN2. rewrite bpow_IZR by lia. apply div_bound; [lia|].
+      apply (S2_bound signed p raw Hw Hp1 Hn). }
+    rewrite Hs2b, HfN2 in Hr1. fold m2_r in Hr1.
+    split; [split; [exact Hm2 | exact Hm1]|].
+    split.
+    { (* delta *)
+      replace (p <=? 1)%Z with false by lia.
+      destruct FR_const_12 as [Hc1 Hc2].
+      destruct (kit_mul_b (snd (acc_pre signed p raw)) 12%float 56 Hvd1 Hc2 ltac:(lia)) as (Ha1 & Ha2 & Ha3).
+      { rewrite Hvd2, Hc1. replace (IZR (V2 ds p) / 2 * 12) with (IZR (6 * V2 ds p)) by (rewrite mult_IZR; field).
+        rewrite bpow_IZR by lia. rewrite <- abs_IZR. apply IZR_le. nia. }
+      rewrite Hvd2, Hc1 in Ha1.
+      destruct (f_of_Z_int (p * (p + 1)) ltac:(nia)) as [Hpp1 Hpp2].
+      destruct (kit_div_b _ (f_of_Z (p * (p + 1))) 56 Ha2) as (Hb1 & Hb2 & Hb3).
+      - rewrite Hpp2. apply not_0_IZR. nia.
+      - lia.
+      - rewrite Hpp2. apply div_ge1_bound; auto. apply IZR_le. nia.
+      - rewrite Hpp2, Ha1 in Hb1. auto. }
+    split.
+    { (* avg *)
+      destruct (kit_sub_b (sum / f_of_Z N)%float ptm 17 Hq2 Hm2 ltac:(lia)) as (Ha1 & Ha2 & _).
+      - apply (sub_bound 16 16); auto; lia.
+      - rewrite Hq1, Hm1 in Ha1. auto. }
+    split.
+    { (* rms *)
+      destruct FR_const_2 as [Hc1 Hc2].
+      destruct (kit_mul_b 2%float ptm 17 Hc2 Hm2 ltac:(lia)) as (Ha1 & Ha2 & Ha3).
+      { rewrite Hc1. apply (mul_bound 1 16); auto. change (bpow radix2 1) with 2. rewrite Rabs_pos_eq; lra. }
+      rewrite Hc1, Hm1 in Ha1.
+      destruct (kit_mul_b (2 * ptm)%float (sum / f_of_Z N)%float 33 Ha2 Hq2 ltac:(lia)) as (Hb1 & Hb2 & Hb3).
+      { apply (mul_bound 17 16); auto. }
+      rewrite Ha1, Hq1 in Hb1.
+      destruct (kit_sub_b (sum2 / f_of_Z N)%float (2 * ptm * (sum / f_of_Z N))%float 34 Hr2 Hb2 ltac:(lia)) as (Hc1' & Hc2' & Hc3').
+      { apply (sub_bound 32 33); auto; lia. }
+      rewrite Hr1, Hb1 in Hc1'.
+      destruct (kit_mul_b ptm ptm 32 Hm2 Hm2 ltac:(lia)) as (Hd1 & Hd2 & Hd3).
+      { apply (mul_bound 16 16); auto. }
+      rewrite Hm1 in Hd1.
+      destruct (kit_add_b (sum2 / f_of_Z N - 2 * ptm * (sum / f_of_Z N))%float (ptm * ptm)%float 35 Hc2' Hd2 ltac:(lia)) as (He1 & He2 & _).
+      { rewrite Rplus_comm. apply (add_bound 32 34); auto; lia. }
+      rewrite Hc1', Hd1 in He1. fold ms_r in He1.
+      unfold mean_square.
+      destruct (kit_clamp0 _ He2) as [Hf1 Hf2]. rewrite He1 in Hf1.
+      destruct (kit_sqrt _ Hf2) as [Hg1 Hg2].
+      { rewrite Hf1. apply Rmax_l. }
+      rewrite Hf1 in Hg1. auto. }
+    { (* peak *)
+      assert (Hpost : post ds p <> []).
+      { intros E. pose proof (post_len signed p raw Hw Hp1 Hn) as HL. fold ds in HL. rewrite E in HL.
+        unfold zlen in HL at 1. cbn in HL. lia. }
+      rewrite (Rmaxl_max _ _ Hpost) in Hmxb. rewrite Hm1 in Hmxb. fold (MX ds p) in Hmxb.
+      assert (HMX : Rabs (IZR (MX ds p)) <= bpow radix2 16).
+      { rewrite bpow_IZR by lia. rewrite <- abs_IZR. apply IZR_le.
+        assert (Hall : Forall srange (post ds p)) by (apply Forall_skipn; apply (ds_range signed raw Hw)).
+        unfold MX, Zmaxl. destruct (post ds p) as [|x r]; [congruence|].
+        inversion Hall as [|? ? Hx Hr]; subst.
+        assert (H : forall l, Forall srange l -> srange (fold_right Z.max x l)).
+        { induction 1 as [|y l Hy Hl IHl]; cbn [fold_right]; auto. unfold srange in *. lia. }
+        specialize (H r Hr). unfold srange in H. lia. }
+      destruct (kit_sub_b mx ptm 17 Hmxa Hm2 ltac:(lia)) as (Ha1 & Ha2 & _).
+      - apply (sub_bound 16 16); [lia| |auto]. rewrite Hmxb.
+        unfold Rmax. destruct (Rle_dec mu_r (IZR (MX ds p))); auto. rewrite <- Hm1. auto.
+      - rewrite Hmxb, Hm1 in Ha1. auto. }
+  Qed.
+End Structure.
+
+Lemma sums_exact_all :
+  forall signed p raw,
+    words_ok raw = true -> (1 <= p)%Z -> (p + 1 <= zlen raw)%Z ->
+    (p * p * 2 ^ 17 < 2 ^ 53)%Z -> ((zlen raw - p) * 2 ^ 32 < 2 ^ 53)%Z ->
+    let ds := map (interp signed) raw in
+    let val := fst (acc_pre signed p raw) in
+    let valPTDelta := snd (acc_pre signed p raw) in
+    let sum := fst (fst (acc_post signed p raw)) in
+    let sum2 := snd (fst (acc_post signed p raw)) in
+    let max := snd (acc_post signed p raw) in
+    (Ffin val /\ FR val = IZR (S0 ds p)) /\
+    (Ffin valPTDelta /\ FR valPTDelta = (IZR (V2 ds p) / 2)%R) /\
+    (Ffin sum /\ FR sum = IZR (S1 ds p)) /\
+    (Ffin sum2 /\ FR sum2 = IZR (S2 ds p)) /\
+    (Ffin max /\ FR max = Rmax (FR (ptm_of signed p raw)) (IZR (MX ds p))).
+Proof.
+  intros signed p raw Hw Hp Hn Hpp HN. cbv zeta.
+  destruct (acc_pre_exact signed p raw Hw ltac:(lia) Hpp) as (H1 & H2 & _).
+  destruct (acc_post_exact signed p raw Hw Hp Hn Hpp HN) as (H3 & H4 & H5 & H6).
+  repeat split; try apply H1; try apply H2; try apply H3; try apply H4; auto.
+  rewrite H6. apply Rmaxl_max.
+  intros E. pose proof (post_len signed p raw Hw Hp Hn) as HL. rewrite E in HL.
+  unfold zlen in HL at 1. cbn in HL. lia.
+Qed.
